@@ -113,5 +113,6 @@ func (c RawConfiguration) handleAsyncCall(ctx context.Context, fut *Async, state
 			vEmit("CallEnd", 0, state.md.MessageID, "out", "incomplete", "nerr", len(errs), "nrep", len(replies))
 			return
 		}
+		vEmit("CallLoop", 0, state.md.MessageID)
 	}
 }
